@@ -19,7 +19,7 @@
 (***************************************************************************)
 EXTENDS Naturals, Sequences, FiniteSets, TLC, Json
 
-CONSTANT Mode     \* "json" | "tv" | "key"
+CONSTANT Mode     \* "json" | "tv" | "tvtol" (TypedValues with TolerateJSONInconsistencies) | "key"
 
 Signed   == {"int8", "int16", "int32", "int64"}
 Unsigned == {"uint8", "uint16", "uint32", "uint64"}
@@ -39,13 +39,14 @@ Vals(t) ==
     [] t = "u-is"       -> {"UINT", "USTR"}         \* union { int32; string [a-z]+ }
     [] t = "u-eu"       -> {"UENUM", "UUINT"}       \* union { enumeration; uint32 }
     [] t = "u-bu"       -> {"UBIN", "UU16"}         \* union { uint16; binary }
+    [] t = "u-bs"       -> {"UBOOL", "USTRBOOLISH"}  \* union { boolean; string }: a string that merely looks like a boolean
     [] t = "binary"     -> {"BEMPTY", "BBYTES"}
     [] t = "empty"      -> {"SET"}
 
 ----------------------------------------------------------------------------
 (* RFC 7951 JSON *)
 
-JKinds == {"num", "str", "bool", "null", "arrnull", "arrempty", "arrnum", "obj"}
+JKinds == {"num", "str", "bool", "null", "arrnull", "arrempty", "arrnum", "arrnullnull", "arrnullnum", "obj"}
 
 \* classes of JSON numbers / strings offered to every type
 NumX == {"MIN", "MIN1", "NEG1", "ZERO", "ONE", "MID", "MAX1", "MAX", "BIG53", "BELOW", "ABOVE", "FRAC", "HUGE"}
@@ -55,7 +56,7 @@ StrX == {"C:" \o v : v \in {"MIN", "MIN1", "NEG1", "ZERO", "ONE", "MID", "MAX1",
 
 JInputs == {[k |-> "num", x |-> x] : x \in NumX} \cup {[k |-> "str", x |-> x] : x \in StrX}
            \cup {[k |-> "bool", x |-> b] : b \in {"TRUE", "FALSE"}}
-           \cup {[k |-> kk, x |-> "-"] : kk \in {"null", "arrnull", "arrempty", "arrnum", "obj"}}
+           \cup {[k |-> kk, x |-> "-"] : kk \in {"null", "arrnull", "arrempty", "arrnum", "arrnullnull", "arrnullnum", "obj"}}
 
 Denotes(v) == <<"denotes", v>>
 Reject == <<"reject">>
@@ -83,7 +84,7 @@ Enc(t, v) ==
 Dec(t, in) ==
   CASE in.k = "null" -> Unspec                                   \* a null member: not decided
     [] t = "empty" -> IF in.k = "arrnull" THEN Denotes("SET") ELSE Reject          \* empty only as [null]
-    [] in.k \in {"arrnull", "arrempty", "arrnum", "obj"} -> Reject                 \* wrong JSON kind for a scalar leaf
+    [] in.k \in {"arrnull", "arrempty", "arrnum", "arrnullnull", "arrnullnum", "obj"} -> Reject   \* wrong JSON kind for a scalar leaf
     [] t \in Ints /\ in.k = "num" ->
          IF in.x \in Vals(t) THEN Denotes(in.x)                   \* also for 64-bit types: exact or error
          ELSE IF in.x \in {"BELOW", "ABOVE", "FRAC", "HUGE"} THEN Reject
@@ -165,7 +166,7 @@ EncTV(t, v) ==
     [] t = "binary"   -> [k |-> "bytes_val", x |-> v]
     [] t = "empty"    -> [k |-> "bool_val", x |-> "TRUE"]
 
-DecTV(t, in) ==
+DecTVPlain(t, in) ==
   CASE in.k \in {"nil_oneof", "nil_value", "any_val", "ascii_val", "float_val", "decimal_val", "leaflist_val"} ->
          IF in.k \in {"nil_oneof", "any_val", "leaflist_val"} THEN Reject ELSE Unspec   \* not a scalar of the leaf's kind (a nil
                                                                                       \* value is how SetNode creates nodes: not decided)
@@ -196,11 +197,21 @@ DecTV(t, in) ==
                      ELSE IF in.k = "uint_val" THEN (IF in.x = "ONE" THEN Denotes("UU16") ELSE Unspec)
                      ELSE IF in.k = "int_val" THEN Unspec ELSE Reject
 
+\* with TolerateJSONInconsistencies a non-negative int_val that is a value of the unsigned type is
+\* accepted for an unsigned leaf; everything else is as without the option
+DecTVTol(t, in) ==
+  IF t \in Unsigned /\ in.k = "int_val"
+  THEN IF in.x \in Vals(t) THEN Denotes(in.x) ELSE Reject            \* negative or beyond the width: still an error
+  ELSE DecTVPlain(t, in)
+
+
+DecTV(t, in) == DecTVPlain(t, in)
+
 ----------------------------------------------------------------------------
 (* gNMI path key strings (C16): every key type, the value classes used as   *)
 (* keys and the class of string the key is written as.                      *)
 
-KeyTypes == Ints \cup {"dec2", "string", "boolean", "enum", "idref", "u-is", "u-eu"}
+KeyTypes == Ints \cup {"dec2", "string", "boolean", "enum", "idref", "u-is", "u-eu", "u-bs"}
 
 KeyStrClass(t, v) ==
   CASE t \in Ints     -> "DECIMAL-DIGITS"       \* optional "-", decimal digits
@@ -210,6 +221,7 @@ KeyStrClass(t, v) ==
     [] t \in {"enum", "idref"} -> "NAME"
     [] t = "u-is"     -> IF v = "UINT" THEN "DECIMAL-DIGITS" ELSE "VERBATIM"
     [] t = "u-eu"     -> IF v = "UENUM" THEN "NAME" ELSE "DECIMAL-DIGITS"
+    [] t = "u-bs"     -> IF v = "UBOOL" THEN "TRUE-FALSE" ELSE "VERBATIM"
 
 ----------------------------------------------------------------------------
 VARIABLE c
@@ -218,13 +230,14 @@ vars == <<c>>
 Cases ==
   CASE Mode = "json" -> [t : Types, in : JInputs]
     [] Mode = "tv"   -> [t : Types, in : TVInputs]
+    [] Mode = "tvtol" -> [t : Unsigned, in : {i \in TVInputs : i.k \in {"int_val", "uint_val"}}]
     [] Mode = "key"  -> UNION {{[t |-> t, v |-> v] : v \in Vals(t)} : t \in KeyTypes}
 
 Init == c \in Cases
 Next == UNCHANGED c
 Spec == Init /\ [][Next]_vars
 
-Verdict == CASE Mode = "json" -> DecFix(c.t, c.in) [] Mode = "tv" -> DecTV(c.t, c.in) [] OTHER -> <<"key">>
+Verdict == CASE Mode = "json" -> DecFix(c.t, c.in) [] Mode = "tv" -> DecTV(c.t, c.in) [] Mode = "tvtol" -> DecTVTol(c.t, c.in) [] OTHER -> <<"key">>
 
 \* the canonical encoding of every value denotes that value
 CanonicalRoundTrip ==
@@ -234,7 +247,7 @@ CanonicalRoundTrip ==
 \* a verdict is one of the three kinds; a denoted value lies in the type's value space (or is
 \* a string outside the named classes)
 VerdictOK ==
-  Mode \in {"json", "tv"} =>
+  Mode \in {"json", "tv", "tvtol"} =>
     /\ Verdict[1] \in {"denotes", "reject", "unspec"}
     /\ (Verdict[1] = "denotes" => Verdict[2] \in Vals(c.t) \cup {"OTHER"})
 
